@@ -157,27 +157,28 @@ type World struct {
 	lastNow  *Term
 	nowCount int
 
-	symCount    map[string]int
-	inputs      map[string]*Term
-	inputKind   map[string]string
-	atEnd       []Value
-	reached     map[string]bool
-	tags        []string
-	trace       []string
-	watchLog    []watchEvent
-	fnSeen      map[string]bool
-	violations  []*Violation
-	asserted    map[string]int
-	end         PathEnd
-	endMsg      string
-	ended       bool
-	initDone    map[*ssa.Package]bool
-	inAtEnd     bool
-	stats       *Stats
-	poolReuse   bool
-	mapOrder    bool
-	timerBudget int
-	sigSeen     map[string]int
+	symCount       map[string]int
+	inputs         map[string]*Term
+	inputKind      map[string]string
+	atEnd          []Value
+	reached        map[string]bool
+	tags           []string
+	trace          []string
+	watchLog       []watchEvent
+	fnSeen         map[string]bool
+	violations     []*Violation
+	asserted       map[string]int
+	end            PathEnd
+	endMsg         string
+	ended          bool
+	initDone       map[*ssa.Package]bool
+	inAtEnd        bool
+	stats          *Stats
+	poolReuse      bool
+	mapOrder       bool
+	timerBudget    int
+	sigSeen        map[string]int
+	timersAnywhere bool
 }
 
 type watchEvent struct {
@@ -524,9 +525,19 @@ func (w *World) schedule(g0 *G) {
 					opts = append(opts, option{g: g})
 				}
 			}
-			for _, t := range w.timers {
-				if w.timerCanFire(t) {
-					opts = append(opts, option{t: t})
+			busy := false
+			if !w.timersAnywhere {
+				for _, o := range opts {
+					if o.g != nil && !o.g.pend.quiesce {
+						busy = true
+					}
+				}
+			}
+			if !busy {
+				for _, t := range w.timers {
+					if w.timerCanFire(t) {
+						opts = append(opts, option{t: t})
+					}
 				}
 			}
 		}
